@@ -46,6 +46,7 @@ def run_unit(fn, tier, seed):
             rec['unsupported'].append({'label': res['label'], 'reason': u})
         trusted.update(res['trusted'])
         n_vc = 0
+        fs_budget = 2  # finite-scope counter-model searches per function (each costs up to ~25 s)
         for kind, ob, extra in res['obls']:
             if kind == 'cover':
                 rec['obligations'].append({'name': ob.name, 'kind': 'cover', 'status': 'discharged' if extra == 'sat' else (
@@ -59,7 +60,8 @@ def run_unit(fn, tier, seed):
                 entry['reason'] = v.reason
             if v.status == 'failed':
                 entry.update(_handle_failure(unit, res, ob, v, extra))
-            elif v.status == 'undecided' and res.get('replay') and extra is not None:
+            elif v.status == 'undecided' and res.get('replay') and extra is not None and fs_budget > 0:
+                fs_budget -= 1
                 entry.update(_finite_scope(unit, res, ob, extra))
             if len(rec['samples']) < 3 and v.status == 'discharged':
                 try:
@@ -119,7 +121,8 @@ def _finite_scope(unit, res, ob, path):
     try:
         state = path.ctx.ghost.get('state')
         sizes = spec['sizes'](state) if spec.get('sizes') else []
-        model, b = finite_scope_model(ob, sizes)
+        restrict = spec['restrict'](state) if spec.get('restrict') else []
+        model, b = finite_scope_model(ob, sizes, extra=restrict)
         if model is None:
             return out
         inputs = spec['concretise'](model, state, ob)
